@@ -382,10 +382,14 @@ DelItem(h, c, key) ==
                THEN (LET p == NormIdx(AsIntRep(k2), n) IN
                      IF p = 0 THEN R(h, OtherErr("IndexError")) ELSE R([h EXCEPT ![c.addr].items = SeqRemoveAt(@, p)], None))
                ELSE R(h, None))
+         \* a host float as key: "len(container) > key" is an ordinary comparison; only if it holds is the deletion attempted (TypeError)
+         ELSE IF k2.t = "float" THEN R(h, IF DecCmp(IntToDec([sign |-> 0, digs |-> NatDigs(LenOf(h, c))]), k2.dec) = 1 THEN TypeErr ELSE None)
          ELSE IF k2.t = "opaque" THEN R(h, Unspec("opaque")) ELSE R(h, TypeErr))
     ELSE IF c.t \in {"str", "tuple"} THEN
         (IF k2.t \in {"int", "bool"}
          THEN (IF (IF c.t = "str" THEN Len(c.s) ELSE Len(c.items)) > BoundVal(AsIntRep(k2)) THEN R(h, TypeErr) ELSE R(h, None))
+         ELSE IF k2.t = "float"
+         THEN R(h, IF DecCmp(IntToDec([sign |-> 0, digs |-> NatDigs(IF c.t = "str" THEN Len(c.s) ELSE Len(c.items))]), k2.dec) = 1 THEN TypeErr ELSE None)
          ELSE IF k2.t = "opaque" THEN R(h, Unspec("opaque")) ELSE R(h, TypeErr))
     ELSE IF c.t = "opaque" THEN R(h, Unspec("opaque"))
     ELSE R(h, TypeErr)
